@@ -468,3 +468,65 @@ MUTANTS += [
     {"name": "sj-filter-result-not-tested", "expect": "R14.1", "edits": [(S, _NORM + _TEST + "        parts.append(filename)\n", "        checked = _checked_component(filename)\n        parts.append(filename if checked is None else checked)\n"), (S, _SIG, _FILTER + _SIG)]},
     {"name": "sj-filter-refusal-skips-the-component", "expect": "R14.1", "edits": [(S, _NORM + _TEST + "        parts.append(filename)\n", _FILTER_USE.replace("            return None\n", "            continue\n")), (S, _SIG, _FILTER + _SIG)]},
 ]
+
+
+# ---- round 3: a place where a component enters the result is judged under the facts of the paths that reach it
+# (constants pinned by equality / emptiness guards, copies, reject tests passed on the way); lists as holders of
+# checked paths; locally defined helpers; candidates tried in a loop
+_R3_BODY = '    if not directory:\n        # Ensure we end up with ./path if directory="" is given,\n        # otherwise the first untrusted part could become trusted.\n        directory = "."\n\n    parts = [directory]\n\n    for filename in pathnames:\n        if filename != "":\n            filename = posixpath.normpath(filename)\n\n        if (\n            any(sep in filename for sep in _os_alt_seps)\n            or os.path.isabs(filename)\n            # ntpath.isabs doesn\'t catch this on Python < 3.11\n            or filename.startswith("/")\n            or filename == ".."\n            or filename.startswith("../")\n        ):\n            return None\n\n        parts.append(filename)\n\n    return posixpath.join(*parts)\n'
+
+TWINS += [
+    {"name": 'r3-empty-component-skips-checks-in-else-branch', "edits": [(S, _R3_BODY, '    parts = [directory or "."]\n    for filename in pathnames:\n        if filename == "":\n            pass\n        else:\n            filename = posixpath.normpath(filename)\n            if (\n                any(sep in filename for sep in _os_alt_seps)\n                or os.path.isabs(filename)\n                or filename.startswith("/")\n                or filename == ".."\n                or filename.startswith("../")\n            ):\n                return None\n        parts.append(filename)\n    return posixpath.join(*parts)\n')]},
+    {"name": 'r3-empty-component-appended-as-literal', "edits": [(S, _R3_BODY, '    parts = [directory or "."]\n    for filename in pathnames:\n        if not filename:\n            parts.append("")\n            continue\n        filename = posixpath.normpath(filename)\n        if any(sep in filename for sep in _os_alt_seps) or os.path.isabs(filename) or filename.startswith("/"):\n            return None\n        if filename == ".." or filename.startswith("../"):\n            return None\n        parts.append(filename)\n    return posixpath.join(*parts)\n')]},
+    {"name": 'r3-len-zero-guard-two-append-sites', "edits": [(S, _R3_BODY, '    parts = [directory or "."]\n    for filename in pathnames:\n        if len(filename) == 0:\n            parts.append(filename)\n        else:\n            normalized = posixpath.normpath(filename)\n            if any(sep in normalized for sep in _os_alt_seps) or os.path.isabs(normalized) or normalized.startswith(("/", "../")) or normalized == "..":\n                return None\n            parts.append(normalized)\n    return posixpath.join(*parts)\n')]},
+    {"name": 'r3-copy-made-before-the-emptiness-test', "edits": [(S, _R3_BODY, '    parts = [directory or "."]\n    for filename in pathnames:\n        piece = filename\n        if filename == "":\n            parts += [piece]\n            continue\n        piece = posixpath.normpath(filename)\n        if any(sep in piece for sep in _os_alt_seps) or os.path.isabs(piece) or piece.startswith("/") or piece == ".." or piece.startswith("../"):\n            return None\n        parts += [piece]\n    return posixpath.join(*parts)\n')]},
+    {"name": 'r3-membership-shortcut-for-empty-and-dot', "edits": [(S, _R3_BODY, '    parts = [directory or "."]\n    for filename in pathnames:\n        if filename != "":\n            filename = posixpath.normpath(filename)\n        if filename in ("", "."):\n            parts.append(filename)\n            continue\n        if any(sep in filename for sep in _os_alt_seps) or os.path.isabs(filename) or filename.startswith("/") or filename == ".." or filename.startswith("../"):\n            return None\n        parts.append(filename)\n    return posixpath.join(*parts)\n')]},
+    {"name": 'r3-reject-tests-split-by-leading-dot', "edits": [(S, _R3_BODY, '    parts = [directory or "."]\n    for filename in pathnames:\n        if filename != "":\n            filename = posixpath.normpath(filename)\n        if any(sep in filename for sep in _os_alt_seps):\n            return None\n        if filename.startswith("."):\n            if filename == ".." or filename.startswith("../"):\n                return None\n        elif os.path.isabs(filename) or filename.startswith("/"):\n            return None\n        parts.append(filename)\n    return posixpath.join(*parts)\n')]},
+    {"name": 'r3-incremental-join-empty-component-early', "edits": [(S, _R3_BODY, '    result = directory or "."\n    for filename in pathnames:\n        if filename == "":\n            result = posixpath.join(result, filename)\n            continue\n        filename = posixpath.normpath(filename)\n        if any(sep in filename for sep in _os_alt_seps) or os.path.isabs(filename) or filename.startswith("/") or filename == ".." or filename.startswith("../"):\n            return None\n        result = posixpath.join(result, filename)\n    return result\n')]},
+    {"name": 'r3-appended-value-with-constant-arm', "edits": [(S, _R3_BODY, '    parts = [directory or "."]\n    for filename in pathnames:\n        if filename != "":\n            filename = posixpath.normpath(filename)\n        if any(sep in filename for sep in _os_alt_seps) or os.path.isabs(filename) or filename.startswith("/") or filename == ".." or filename.startswith("../"):\n            return None\n        parts.append(filename if filename else "")\n    return posixpath.join(*parts)\n')]},
+    {"name": 'r3-empty-component-bound-as-constant', "edits": [(S, _R3_BODY, '    parts = [directory or "."]\n    for filename in pathnames:\n        if filename == "":\n            normalized = ""\n        else:\n            normalized = posixpath.normpath(filename)\n            if any(sep in normalized for sep in _os_alt_seps) or os.path.isabs(normalized) or normalized.startswith("/"):\n                return None\n            if normalized == ".." or normalized.startswith("../"):\n                return None\n        parts.append(normalized)\n    return posixpath.join(*parts)\n')]},
+    {"name": 'r3-directory-loader-target-as-conditional-expression', "edits": [(M, '            if path is not None:\n                path = safe_join(directory, path)\n\n                if path is None:\n                    return None, None\n            else:\n                path = directory\n\n            if os.path.isfile(path):\n                return os.path.basename(path), self._opener(path)\n\n            return None, None\n', '            target = directory if path is None else safe_join(directory, path)\n\n            if target is None:\n                return None, None\n\n            if os.path.isfile(target):\n                return os.path.basename(target), self._opener(target)\n\n            return None, None\n')]},
+    {"name": 'r3-directory-loader-candidates-list', "edits": [(M, '            if path is not None:\n                path = safe_join(directory, path)\n\n                if path is None:\n                    return None, None\n            else:\n                path = directory\n\n            if os.path.isfile(path):\n                return os.path.basename(path), self._opener(path)\n\n            return None, None\n', '            candidates = [safe_join(directory, path)] if path is not None else [directory]\n\n            for candidate in candidates:\n                if candidate is not None and os.path.isfile(candidate):\n                    return os.path.basename(candidate), self._opener(candidate)\n\n            return None, None\n')]},
+    {"name": 'r3-directory-loader-local-resolver-function', "edits": [(M, '            if path is not None:\n                path = safe_join(directory, path)\n\n                if path is None:\n                    return None, None\n            else:\n                path = directory\n\n            if os.path.isfile(path):\n                return os.path.basename(path), self._opener(path)\n\n            return None, None\n', '            def resolve(name: str | None) -> str | None:\n                return directory if name is None else safe_join(directory, name)\n\n            full = resolve(path)\n\n            if full is None or not os.path.isfile(full):\n                return None, None\n\n            return os.path.basename(full), self._opener(full)\n')]},
+    {"name": 'r3-opener-def-with-single-stat', "edits": [(M, '        return lambda: (\n            open(filename, "rb"),\n            datetime.fromtimestamp(os.path.getmtime(filename), tz=timezone.utc),\n            int(os.path.getsize(filename)),\n        )\n', '        def opener() -> tuple[t.IO[bytes], datetime, int]:\n            st = os.stat(filename)\n            return (\n                open(filename, "rb"),\n                datetime.fromtimestamp(st.st_mtime, tz=timezone.utc),\n                int(st.st_size),\n            )\n\n        return opener\n')]},
+    {"name": 'r3-send-from-directory-walrus-and-kwargs-get', "edits": [(U, '    path_str = safe_join(os.fspath(directory), os.fspath(path))\n\n    if path_str is None:\n        raise NotFound()\n\n    # Flask will pass app.root_path, allowing its send_from_directory\n    # wrapper to not have to deal with paths.\n    if "_root_path" in kwargs:\n        path_str = os.path.join(kwargs["_root_path"], path_str)\n\n    if not os.path.isfile(path_str):\n        raise NotFound()\n\n    return send_file(path_str, environ, **kwargs)\n', '    if (path_str := safe_join(os.fspath(directory), os.fspath(path))) is None:\n        raise NotFound()\n\n    root = kwargs.get("_root_path")\n    full = path_str if root is None else os.path.join(root, path_str)\n\n    if not os.path.isfile(full):\n        raise NotFound()\n\n    return send_file(full, environ, **kwargs)\n')]},
+    {"name": 'r3-send-from-directory-pieces-list-joined', "edits": [(U, '    path_str = safe_join(os.fspath(directory), os.fspath(path))\n\n    if path_str is None:\n        raise NotFound()\n\n    # Flask will pass app.root_path, allowing its send_from_directory\n    # wrapper to not have to deal with paths.\n    if "_root_path" in kwargs:\n        path_str = os.path.join(kwargs["_root_path"], path_str)\n\n    if not os.path.isfile(path_str):\n        raise NotFound()\n\n    return send_file(path_str, environ, **kwargs)\n', '    joined = safe_join(os.fspath(directory), os.fspath(path))\n\n    if joined is None:\n        raise NotFound()\n\n    pieces = [joined]\n\n    if "_root_path" in kwargs:\n        pieces.insert(0, kwargs["_root_path"])\n\n    path_str = os.path.join(*pieces)\n\n    if not os.path.isfile(path_str):\n        raise NotFound()\n\n    return send_file(path_str, environ, **kwargs)\n')]},
+    {"name": 'r3-send-from-directory-typed-raise-translated', "edits": [(U, '    path_str = safe_join(os.fspath(directory), os.fspath(path))\n\n    if path_str is None:\n        raise NotFound()\n\n    # Flask will pass app.root_path, allowing its send_from_directory\n    # wrapper to not have to deal with paths.\n    if "_root_path" in kwargs:\n        path_str = os.path.join(kwargs["_root_path"], path_str)\n\n    if not os.path.isfile(path_str):\n        raise NotFound()\n\n    return send_file(path_str, environ, **kwargs)\n', '    path_str = safe_join(os.fspath(directory), os.fspath(path))\n\n    try:\n        if path_str is None:\n            raise FileNotFoundError(path)\n\n        if "_root_path" in kwargs:\n            path_str = os.path.join(kwargs["_root_path"], path_str)\n\n        if not os.path.isfile(path_str):\n            raise FileNotFoundError(path_str)\n    except FileNotFoundError:\n        raise NotFound() from None\n\n    return send_file(path_str, environ, **kwargs)\n')]},
+    {"name": 'r3-middleware-attempts-generator-for-else', "edits": [(M, '        file_loader = None\n\n        for search_path, loader in self.exports:\n            if search_path == path:\n                real_filename, file_loader = loader(None)\n\n                if file_loader is not None:\n                    break\n\n            if not search_path.endswith("/"):\n                search_path += "/"\n\n            if path.startswith(search_path):\n                real_filename, file_loader = loader(path[len(search_path) :])\n\n                if file_loader is not None:\n                    break\n\n        if file_loader is None or not self.is_allowed(real_filename):  # type: ignore\n            return self.app(environ, start_response)\n', '        def attempts() -> t.Iterator[tuple[str | None, _TOpener | None]]:\n            for search_path, loader in self.exports:\n                if search_path == path:\n                    yield loader(None)\n\n                if not search_path.endswith("/"):\n                    search_path += "/"\n\n                if path.startswith(search_path):\n                    yield loader(path[len(search_path) :])\n\n        for real_filename, file_loader in attempts():\n            if file_loader is not None:\n                break\n        else:\n            return self.app(environ, start_response)\n\n        if not self.is_allowed(real_filename):  # type: ignore\n            return self.app(environ, start_response)\n')]},
+    {"name": 'r3-middleware-hits-list-next-default', "edits": [(M, '        file_loader = None\n\n        for search_path, loader in self.exports:\n            if search_path == path:\n                real_filename, file_loader = loader(None)\n\n                if file_loader is not None:\n                    break\n\n            if not search_path.endswith("/"):\n                search_path += "/"\n\n            if path.startswith(search_path):\n                real_filename, file_loader = loader(path[len(search_path) :])\n\n                if file_loader is not None:\n                    break\n\n        if file_loader is None or not self.is_allowed(real_filename):  # type: ignore\n            return self.app(environ, start_response)\n', '        hits = []\n\n        for search_path, loader in self.exports:\n            if search_path == path:\n                hits.append(loader(None))\n\n            if not search_path.endswith("/"):\n                search_path += "/"\n\n            if path.startswith(search_path):\n                hits.append(loader(path[len(search_path) :]))\n\n        real_filename, file_loader = next(\n            (hit for hit in hits if hit[1] is not None), (None, None)\n        )\n\n        if file_loader is None or not self.is_allowed(real_filename):  # type: ignore\n            return self.app(environ, start_response)\n')]},
+    {"name": 'r3-package-loader-join-in-conditional-expression', "edits": [(M, '            if path is None:\n                return None, None\n\n            path = safe_join(package_path, path)\n\n            if path is None:\n                return None, None\n', '            path = safe_join(package_path, path) if path is not None else None\n\n            if path is None:\n                return None, None\n')]},
+    {"name": 'r3-package-loader-miss-constant', "edits": [(M, '            if path is None:\n                return None, None\n\n            path = safe_join(package_path, path)\n\n            if path is None:\n                return None, None\n', '            miss = (None, None)\n\n            if path is None:\n                return miss\n\n            path = safe_join(package_path, path)\n\n            if not path:\n                return miss\n')]},
+    {"name": 'r3-filename-filter-comprehension-bound-to-local', "edits": [(U, '    for sep in os.sep, os.path.altsep:\n        if sep:\n            filename = filename.replace(sep, " ")\n    filename = str(_filename_ascii_strip_re.sub("", "_".join(filename.split()))).strip(\n        "._"\n    )\n', '    for sep in os.sep, os.path.altsep:\n        if sep:\n            filename = filename.replace(sep, " ")\n    joined = "_".join(filename.split())\n    kept = [ch for ch in joined if ch.isascii() and (ch.isalnum() or ch in "_.-")]\n    filename = "".join(kept).strip("._")\n')]},
+    {"name": 'r3-filename-pieces-filtered-one-by-one', "edits": [(U, '    for sep in os.sep, os.path.altsep:\n        if sep:\n            filename = filename.replace(sep, " ")\n    filename = str(_filename_ascii_strip_re.sub("", "_".join(filename.split()))).strip(\n        "._"\n    )\n', '    for sep in os.sep, os.path.altsep:\n        if sep:\n            filename = filename.replace(sep, " ")\n    pieces = (_filename_ascii_strip_re.sub("", word) for word in filename.split())\n    filename = "_".join(pieces).strip("._")\n')]},
+    {"name": 'r3-filename-steps-on-separate-lines', "edits": [(U, '    for sep in os.sep, os.path.altsep:\n        if sep:\n            filename = filename.replace(sep, " ")\n    filename = str(_filename_ascii_strip_re.sub("", "_".join(filename.split()))).strip(\n        "._"\n    )\n', '    for sep in filter(None, (os.sep, os.path.altsep)):\n        filename = filename.replace(sep, " ")\n    filename = "_".join(filename.split())\n    filename = _filename_ascii_strip_re.sub("", filename)\n    filename = filename.strip("._")\n')]},
+]
+MUTANTS += [
+    {"name": 'r3-literal-dotdot-appended', "expect": "R14.1", "edits": [(S, _R3_BODY, '    parts = [directory or "."]\n    for filename in pathnames:\n        if not filename:\n            parts.append("..")\n            continue\n        filename = posixpath.normpath(filename)\n        if any(sep in filename for sep in _os_alt_seps) or os.path.isabs(filename) or filename.startswith("/"):\n            return None\n        if filename == ".." or filename.startswith("../"):\n            return None\n        parts.append(filename)\n    return posixpath.join(*parts)\n')]},
+    {"name": 'r3-early-append-under-dotdot-guard', "expect": "R14.1", "edits": [(S, _R3_BODY, '    parts = [directory or "."]\n    for filename in pathnames:\n        if filename == "..":\n            parts.append(filename)\n            continue\n        filename = posixpath.normpath(filename)\n        if any(sep in filename for sep in _os_alt_seps) or os.path.isabs(filename) or filename.startswith("/"):\n            return None\n        if filename == ".." or filename.startswith("../"):\n            return None\n        parts.append(filename)\n    return posixpath.join(*parts)\n')]},
+    {"name": 'r3-early-append-under-inverted-guard', "expect": "R14.1", "edits": [(S, _R3_BODY, '    parts = [directory or "."]\n    for filename in pathnames:\n        if filename != "":\n            parts.append(filename)\n            continue\n        filename = posixpath.normpath(filename)\n        if any(sep in filename for sep in _os_alt_seps) or os.path.isabs(filename) or filename.startswith("/"):\n            return None\n        if filename == ".." or filename.startswith("../"):\n            return None\n        parts.append(filename)\n    return posixpath.join(*parts)\n')]},
+    {"name": 'r3-else-branch-forgets-dotdot', "expect": "R14.1", "edits": [(S, _R3_BODY, '    parts = [directory or "."]\n    for filename in pathnames:\n        if filename == "":\n            pass\n        else:\n            filename = posixpath.normpath(filename)\n            if (\n                any(sep in filename for sep in _os_alt_seps)\n                or os.path.isabs(filename)\n                or filename.startswith("/")\n                or filename.startswith("../")\n            ):\n                return None\n        parts.append(filename)\n    return posixpath.join(*parts)\n')]},
+    {"name": 'r3-value-rebound-after-emptiness-guard', "expect": "R14.1", "edits": [(S, _R3_BODY, '    parts = [directory or "."]\n    for filename in pathnames:\n        if filename == "":\n            filename = pathnames[0]\n            parts.append(filename)\n            continue\n        filename = posixpath.normpath(filename)\n        if any(sep in filename for sep in _os_alt_seps) or os.path.isabs(filename) or filename.startswith("/"):\n            return None\n        if filename == ".." or filename.startswith("../"):\n            return None\n        parts.append(filename)\n    return posixpath.join(*parts)\n')]},
+    {"name": 'r3-membership-shortcut-lets-dotdot-through', "expect": "R14.1", "edits": [(S, _R3_BODY, '    parts = [directory or "."]\n    for filename in pathnames:\n        if filename != "":\n            filename = posixpath.normpath(filename)\n        if filename in ("", ".", ".."):\n            parts.append(filename)\n            continue\n        if any(sep in filename for sep in _os_alt_seps) or os.path.isabs(filename) or filename.startswith("/") or filename == ".." or filename.startswith("../"):\n            return None\n        parts.append(filename)\n    return posixpath.join(*parts)\n')]},
+    {"name": 'r3-case-split-leaves-absolute-unchecked', "expect": "R14.1", "edits": [(S, _R3_BODY, '    parts = [directory or "."]\n    for filename in pathnames:\n        if filename != "":\n            filename = posixpath.normpath(filename)\n        if any(sep in filename for sep in _os_alt_seps):\n            return None\n        if filename.startswith("."):\n            if filename == ".." or filename.startswith("../"):\n                return None\n        parts.append(filename)\n    return posixpath.join(*parts)\n')]},
+    {"name": 'r3-early-append-guarded-by-other-variable', "expect": "R14.1", "edits": [(S, _R3_BODY, '    parts = [directory or "."]\n    for filename in pathnames:\n        if directory == "":\n            parts.append(filename)\n            continue\n        filename = posixpath.normpath(filename)\n        if any(sep in filename for sep in _os_alt_seps) or os.path.isabs(filename) or filename.startswith("/"):\n            return None\n        if filename == ".." or filename.startswith("../"):\n            return None\n        parts.append(filename)\n    return posixpath.join(*parts)\n')]},
+    {"name": 'r3-else-branch-reject-continues', "expect": "R14.1", "edits": [(S, _R3_BODY, '    parts = [directory or "."]\n    for filename in pathnames:\n        if filename == "":\n            pass\n        else:\n            filename = posixpath.normpath(filename)\n            if (\n                any(sep in filename for sep in _os_alt_seps)\n                or os.path.isabs(filename)\n                or filename.startswith("/")\n                or filename == ".."\n                or filename.startswith("../")\n            ):\n                continue\n        parts.append(filename)\n    return posixpath.join(*parts)\n')]},
+    {"name": 'r3-candidates-list-without-none-test', "expect": 'R14.3', "edits": [(M, '            if path is not None:\n                path = safe_join(directory, path)\n\n                if path is None:\n                    return None, None\n            else:\n                path = directory\n\n            if os.path.isfile(path):\n                return os.path.basename(path), self._opener(path)\n\n            return None, None\n', '            candidates = [safe_join(directory, path)] if path is not None else [directory]\n\n            for candidate in candidates:\n                if os.path.isfile(candidate):\n                    return os.path.basename(candidate), self._opener(candidate)\n\n            return None, None\n')]},
+    {"name": 'r3-raw-path-appended-to-pieces-list', "expect": 'R14.2', "edits": [(U, '    path_str = safe_join(os.fspath(directory), os.fspath(path))\n\n    if path_str is None:\n        raise NotFound()\n\n    # Flask will pass app.root_path, allowing its send_from_directory\n    # wrapper to not have to deal with paths.\n    if "_root_path" in kwargs:\n        path_str = os.path.join(kwargs["_root_path"], path_str)\n\n    if not os.path.isfile(path_str):\n        raise NotFound()\n\n    return send_file(path_str, environ, **kwargs)\n', '    joined = safe_join(os.fspath(directory), os.fspath(path))\n\n    if joined is None:\n        raise NotFound()\n\n    pieces = [joined]\n\n    if "_root_path" in kwargs:\n        pieces.insert(0, kwargs["_root_path"])\n\n    pieces.append(os.fspath(path))\n    path_str = os.path.join(*pieces)\n\n    if not os.path.isfile(path_str):\n        raise NotFound()\n\n    return send_file(path_str, environ, **kwargs)\n')]},
+    {"name": 'r3-conditional-expression-plain-join', "expect": 'R14.2', "edits": [(M, '            if path is not None:\n                path = safe_join(directory, path)\n\n                if path is None:\n                    return None, None\n            else:\n                path = directory\n\n            if os.path.isfile(path):\n                return os.path.basename(path), self._opener(path)\n\n            return None, None\n', '            target = directory if path is None else os.path.join(directory, path)\n\n            if target is None:\n                return None, None\n\n            if os.path.isfile(target):\n                return os.path.basename(target), self._opener(target)\n\n            return None, None\n')]},
+    {"name": 'r3-join-result-selected-without-none-test', "expect": 'R14.3', "edits": [(U, '    path_str = safe_join(os.fspath(directory), os.fspath(path))\n\n    if path_str is None:\n        raise NotFound()\n\n    # Flask will pass app.root_path, allowing its send_from_directory\n    # wrapper to not have to deal with paths.\n    if "_root_path" in kwargs:\n        path_str = os.path.join(kwargs["_root_path"], path_str)\n\n    if not os.path.isfile(path_str):\n        raise NotFound()\n\n    return send_file(path_str, environ, **kwargs)\n', '    path_str = safe_join(os.fspath(directory), os.fspath(path))\n\n    root = kwargs.get("_root_path")\n    full = path_str if root is None else os.path.join(root, path_str)\n\n    if not os.path.isfile(full):\n        raise NotFound()\n\n    return send_file(full, environ, **kwargs)\n')]},
+    {"name": 'r3-named-filter-keeps-slash', "expect": 'R14.4', "edits": [(U, '    for sep in os.sep, os.path.altsep:\n        if sep:\n            filename = filename.replace(sep, " ")\n    filename = str(_filename_ascii_strip_re.sub("", "_".join(filename.split()))).strip(\n        "._"\n    )\n', '    for sep in os.sep, os.path.altsep:\n        if sep:\n            filename = filename.replace(sep, " ")\n    joined = "_".join(filename.split())\n    kept = [ch for ch in joined if ch.isascii() and (ch.isalnum() or ch in "_.-/")]\n    filename = "".join(kept).strip("._")\n')]},
+    {"name": 'r3-strip-moved-before-the-deleting-step', "expect": 'R14.4', "edits": [(U, '    for sep in os.sep, os.path.altsep:\n        if sep:\n            filename = filename.replace(sep, " ")\n    filename = str(_filename_ascii_strip_re.sub("", "_".join(filename.split()))).strip(\n        "._"\n    )\n', '    for sep in os.sep, os.path.altsep:\n        if sep:\n            filename = filename.replace(sep, " ")\n    filename = "_".join(filename.split()).strip("._")\n    filename = _filename_ascii_strip_re.sub("", filename)\n')]},
+]
+TWINS += [
+    {"name": "r3-empty-component-appended-early-then-two-guards", "edits": [(S, _R3_BODY, '    parts = [directory or "."]\n    for filename in pathnames:\n        if filename == "":\n            # nothing to normalise, cannot match any check below\n            parts.append(filename)\n            continue\n        filename = posixpath.normpath(filename)\n        if any(sep in filename for sep in _os_alt_seps) or os.path.isabs(filename) or filename.startswith("/"):\n            return None\n        if filename == ".." or filename.startswith("../"):\n            return None\n        parts.append(filename)\n    return posixpath.join(*parts)\n')]},
+]
+
+TWINS += [
+    {"name": "r3-reject-tests-as-table-of-predicates", "edits": [(S, _R3_BODY, '    parts = [directory or "."]\n    checks = (os.path.isabs, lambda n: n.startswith("/"), lambda n: n == "..", lambda n: n.startswith("../"))\n    for filename in pathnames:\n        if filename != "":\n            filename = posixpath.normpath(filename)\n        if any(sep in filename for sep in _os_alt_seps) or any(check(filename) for check in checks):\n            return None\n        parts.append(filename)\n    return posixpath.join(*parts)\n')]},
+    {"name": "r3-loop-over-map-of-normaliser-helper", "edits": [(S, _R3_BODY, '    parts = [directory or "."]\n    for filename in map(_normalize_component, pathnames):\n        if any(sep in filename for sep in _os_alt_seps) or os.path.isabs(filename) or filename.startswith("/") or filename == ".." or filename.startswith("../"):\n            return None\n        parts.append(filename)\n    return posixpath.join(*parts)\n'), (S, _SIG, 'def _normalize_component(name: str) -> str:\n    return posixpath.normpath(name) if name != "" else name\n\n\n' + _SIG)]},
+    {"name": "r3-parts-in-a-deque", "edits": [(S, _R3_BODY, '    parts = collections.deque([directory or "."])\n    for filename in pathnames:\n        if filename != "":\n            filename = posixpath.normpath(filename)\n        if any(sep in filename for sep in _os_alt_seps) or os.path.isabs(filename) or filename.startswith("/") or filename == ".." or filename.startswith("../"):\n            return None\n        parts.append(filename)\n    return posixpath.join(*parts)\n'), (S, _SIG, 'import collections\n\n\n' + _SIG)]},
+    {"name": "r3-checked-components-spread-into-join", "edits": [(S, _R3_BODY, '    checked = []\n    for filename in pathnames:\n        if filename != "":\n            filename = posixpath.normpath(filename)\n        if any(sep in filename for sep in _os_alt_seps) or os.path.isabs(filename) or filename.startswith("/") or filename == ".." or filename.startswith("../"):\n            return None\n        checked.append(filename)\n    return posixpath.join(directory or ".", *checked)\n')]},
+]
+MUTANTS += [
+    {"name": "r3-predicate-table-misses-dotdot", "expect": "R14.1", "edits": [(S, _R3_BODY, '    parts = [directory or "."]\n    checks = (os.path.isabs, lambda n: n.startswith("/"), lambda n: n.startswith("../"))\n    for filename in pathnames:\n        if filename != "":\n            filename = posixpath.normpath(filename)\n        if any(sep in filename for sep in _os_alt_seps) or any(check(filename) for check in checks):\n            return None\n        parts.append(filename)\n    return posixpath.join(*parts)\n')]},
+]
